@@ -1,0 +1,46 @@
+//! Verification hooks (feature `oxidd_verif`): schedule perturbation
+//!
+//! The manager and apply cache implementations call [`yield_point()`] around
+//! their critical sections. When perturbation is switched on by a conformance
+//! harness, these calls randomly yield the thread or sleep for a few
+//! microseconds to diversify thread interleavings. They never change any
+//! result.
+
+use std::cell::Cell;
+use std::sync::atomic::{AtomicU32, Ordering::Relaxed};
+
+/// 0 = off. Otherwise a call to [`yield_point()`] yields the thread with
+/// probability 1/`PERTURB` and additionally sleeps with probability
+/// 1/(32 * `PERTURB`).
+pub static PERTURB: AtomicU32 = AtomicU32::new(0);
+
+thread_local! {
+    static RNG: Cell<u64> = const { Cell::new(0) };
+}
+
+/// Possibly yield the current thread (see [`PERTURB`])
+#[inline]
+pub fn yield_point(id: u32) {
+    let p = PERTURB.load(Relaxed) as u64;
+    if p == 0 {
+        return;
+    }
+    RNG.with(|r| {
+        let mut x = r.get();
+        if x == 0 {
+            // seed from the address of the thread-local (differs per thread)
+            x = (r as *const _ as u64) | 1;
+        }
+        x ^= x << 13;
+        x ^= x >> 7;
+        x ^= x << 17;
+        r.set(x);
+        let x = x.wrapping_add(id as u64);
+        if x % p == 0 {
+            std::thread::yield_now();
+        }
+        if (x >> 24) % (32 * p) == 0 {
+            std::thread::sleep(std::time::Duration::from_micros(20 + (x >> 40) % 100));
+        }
+    });
+}
